@@ -32,7 +32,12 @@ def ipv4_kernels(tier, cfg="default", tag=""):
     # parse_ipv4_number on one part
     for n in lens(tier, (0, 1, 2, 3, 5, 8), range(0, 15)):
         o.append(Obl(f"ipv4_number{tag}_n{n}", "ipv4_number.c", [U("vk_ipv4_number", cfg)],
-                     defs={"N": n, "KERNEL": "F_vk_ipv4_number"}, unwind=n + 2, witness=(n >= 1), mem_gb=4))
+                     defs={"N": n, "KERNEL": "F_vk_ipv4_number"}, unwind=max(n + 2, 10), witness=(n >= 1), mem_gb=4, backend="kissat"))
+    for cls, name, ls in ((1, "dec", (9, 10, 11)), (2, "hex", (9, 10, 11)), (3, "oct", (11, 12, 13))):
+        for n in lens(tier, ls[1:2], ls):
+            o.append(Obl(f"ipv4_number{tag}_{name}_n{n}", "ipv4_number.c", [U("vk_ipv4_number", cfg)],
+                         defs={"N": n, "KERNEL": "F_vk_ipv4_number", "DIGCLASS": cls}, unwind=max(n + 2, 10), mem_gb=6, backend="kissat",
+                         timeout=(200 if tier == Q else 1800), weight=4))
     # is_ipv4 == ends-in-a-number
     for n in lens(tier, (1, 2, 3, 5, 8, 12), range(1, 17)):
         o.append(Obl(f"is_ipv4{tag}_n{n}", "is_ipv4.c", [U("vk_is_ipv4", cfg)],
@@ -47,7 +52,7 @@ def ipv4_full(tier, cfg="default", tag=""):
     for n in lens(tier, (1, 3, 4, 5), range(1, 12)):
         o.append(Obl(f"ipv4_url{tag}_n{n}", "ipv4_parse.c", [U("vk_url_parse_ipv4", cfg)],
                      defs={"N": n, "KERNEL": "F_vk_url_parse_ipv4"}, unwind=n + 2, unwindset=us,
-                     timeout=(120 if tier == Q else 1500), mem_gb=10, weight=5))
+                     timeout=(120 if tier == Q else 1500), mem_gb=10, weight=5, backend=("cadical" if n >= 5 else None)))
     return o
 
 
@@ -182,10 +187,11 @@ def steps(tier, ops=None, with_limit=False, tag="", pick=None):
                 d = {"N": n, "M": m, "BN": 15, "KERNEL": "F_" + root}
                 d.update(defs)
                 stubs = list(STR_STUBS)
+                roots = [root]
                 if with_limit:
                     d["WITH_LIMIT"] = 1
-                    stubs.append("_ZN3ada20get_max_input_lengthEv")
-                o.append(Obl(f"step{tag}_{name}_n{n}_m{m}", "step.c", [U(root, stubs=stubs)], defs=d, unwind=17,
+                    roots.append("vk_set_limit")
+                o.append(Obl(f"step{tag}_{name}_n{n}_m{m}", "step.c", [U(roots, stubs=stubs)], defs=d, unwind=17,
                              maxcpy=16, mem_gb=16, timeout=(600 if tier == Q else 1800), weight=10 + m))
     return o
 
